@@ -43,9 +43,9 @@ def reconfig(tier, seed):
                      histories=len(r.records), **_summ(r)))
     recs = list(r.records)
     if tier == 'quick':
-        # half of the histories, chosen by content and rotating with the seed (the thorough tier replays all of them)
+        # a third of the histories, chosen by content and rotating with the seed (the thorough tier replays all of them)
         from .common import digest
-        recs = [x for x in recs if int(digest(x), 16) % 2 == seed % 2]
+        recs = [x for x in recs if int(digest(x), 16) % 3 == seed % 3]
     if tier == 'thorough':
         for k in range(4):
             w = tlc.simulate('MC_PopReconfig', 'PopReconfig_long.cfg', 400, 60, seed=seed * 10 + k)
@@ -250,7 +250,7 @@ def run(tier, seed):
         cov['transitions'] += sum(r['transitions'] for r in runs)
         cov['traces_validated_against_impl'] += len(uniq)
         cov['reconfiguration_histories_replayed'] = len(uniq)
-        cov['rule'] += ('; plus module PopReconfig: every history of 4 reconfiguration calls (quick: a content-chosen half; thorough: all, and random walks '
+        cov['rule'] += ('; plus module PopReconfig: every history of 4 reconfiguration calls (quick: a content-chosen third; thorough: all, and random walks '
                         'of up to 8) on six compositions, replayed on the real objects, counts/names/IDs/vector and '
                         'gradient lengths compared after every call and at the end; plus module CtrlLife: every history of 4 '
                         'configuration calls of the problem controller (thorough: walks of 8), names / counts / prior held after '
